@@ -261,6 +261,8 @@ impl<'reg> Registry<'reg> {
     /// is not managed by the registry.
     pub fn register_template(&mut self, name: &str, tpl: Template) {
         self.templates.insert(name.to_string(), tpl);
+        // the name no longer stands for a previously tracked source
+        self.template_sources.remove(name);
     }
 
     /// Register a template string
